@@ -281,7 +281,7 @@ func (p Point) MarshalBSON() ([]byte, error) {
 // UnmarshalJSON will unmarshal the GeoJSON Point geometry.
 func (p *Point) UnmarshalJSON(data []byte) error {
 	g := &Geometry{}
-	err := unmarshalJSON(data, &g)
+	err := unmarshalJSON(data, g)
 	if err != nil {
 		return err
 	}
@@ -298,7 +298,7 @@ func (p *Point) UnmarshalJSON(data []byte) error {
 // UnmarshalBSON will unmarshal GeoJSON Point geometry.
 func (p *Point) UnmarshalBSON(data []byte) error {
 	g := &Geometry{}
-	err := bson.Unmarshal(data, &g)
+	err := bson.Unmarshal(data, g)
 	if err != nil {
 		return err
 	}
@@ -333,7 +333,7 @@ func (mp MultiPoint) MarshalBSON() ([]byte, error) {
 // UnmarshalJSON will unmarshal the GeoJSON MultiPoint geometry.
 func (mp *MultiPoint) UnmarshalJSON(data []byte) error {
 	g := &Geometry{}
-	err := unmarshalJSON(data, &g)
+	err := unmarshalJSON(data, g)
 	if err != nil {
 		return err
 	}
@@ -350,7 +350,7 @@ func (mp *MultiPoint) UnmarshalJSON(data []byte) error {
 // UnmarshalBSON will unmarshal the GeoJSON MultiPoint geometry.
 func (mp *MultiPoint) UnmarshalBSON(data []byte) error {
 	g := &Geometry{}
-	err := bson.Unmarshal(data, &g)
+	err := bson.Unmarshal(data, g)
 	if err != nil {
 		return err
 	}
@@ -385,7 +385,7 @@ func (ls LineString) MarshalBSON() ([]byte, error) {
 // UnmarshalJSON will unmarshal the GeoJSON MultiPoint geometry.
 func (ls *LineString) UnmarshalJSON(data []byte) error {
 	g := &Geometry{}
-	err := unmarshalJSON(data, &g)
+	err := unmarshalJSON(data, g)
 	if err != nil {
 		return err
 	}
@@ -402,7 +402,7 @@ func (ls *LineString) UnmarshalJSON(data []byte) error {
 // UnmarshalBSON will unmarshal the GeoJSON MultiPoint geometry.
 func (ls *LineString) UnmarshalBSON(data []byte) error {
 	g := &Geometry{}
-	err := bson.Unmarshal(data, &g)
+	err := bson.Unmarshal(data, g)
 	if err != nil {
 		return err
 	}
@@ -437,7 +437,7 @@ func (mls MultiLineString) MarshalBSON() ([]byte, error) {
 // UnmarshalJSON will unmarshal the GeoJSON MultiPoint geometry.
 func (mls *MultiLineString) UnmarshalJSON(data []byte) error {
 	g := &Geometry{}
-	err := unmarshalJSON(data, &g)
+	err := unmarshalJSON(data, g)
 	if err != nil {
 		return err
 	}
@@ -454,7 +454,7 @@ func (mls *MultiLineString) UnmarshalJSON(data []byte) error {
 // UnmarshalBSON will unmarshal the GeoJSON MultiPoint geometry.
 func (mls *MultiLineString) UnmarshalBSON(data []byte) error {
 	g := &Geometry{}
-	err := bson.Unmarshal(data, &g)
+	err := bson.Unmarshal(data, g)
 	if err != nil {
 		return err
 	}
@@ -489,7 +489,7 @@ func (p Polygon) MarshalBSON() ([]byte, error) {
 // UnmarshalJSON will unmarshal the GeoJSON Polygon geometry.
 func (p *Polygon) UnmarshalJSON(data []byte) error {
 	g := &Geometry{}
-	err := unmarshalJSON(data, &g)
+	err := unmarshalJSON(data, g)
 	if err != nil {
 		return err
 	}
@@ -506,7 +506,7 @@ func (p *Polygon) UnmarshalJSON(data []byte) error {
 // UnmarshalBSON will unmarshal the GeoJSON Polygon geometry.
 func (p *Polygon) UnmarshalBSON(data []byte) error {
 	g := &Geometry{}
-	err := bson.Unmarshal(data, &g)
+	err := bson.Unmarshal(data, g)
 	if err != nil {
 		return err
 	}
@@ -541,7 +541,7 @@ func (mp MultiPolygon) MarshalBSON() ([]byte, error) {
 // UnmarshalJSON will unmarshal the GeoJSON MultiPolygon geometry.
 func (mp *MultiPolygon) UnmarshalJSON(data []byte) error {
 	g := &Geometry{}
-	err := unmarshalJSON(data, &g)
+	err := unmarshalJSON(data, g)
 	if err != nil {
 		return err
 	}
@@ -558,7 +558,7 @@ func (mp *MultiPolygon) UnmarshalJSON(data []byte) error {
 // UnmarshalBSON will unmarshal the GeoJSON MultiPolygon geometry.
 func (mp *MultiPolygon) UnmarshalBSON(data []byte) error {
 	g := &Geometry{}
-	err := bson.Unmarshal(data, &g)
+	err := bson.Unmarshal(data, g)
 	if err != nil {
 		return err
 	}
